@@ -25,7 +25,15 @@ LEVEL_TEXT = ("Coq theorems: over R, Haldane and Kosambi map 0 to 0, [0,inf) int
               "on first use describes its own markers (every query); after remove_discrepancies/select/remove the reduced map is well-formed "
               "and interpolation is at once exact at the remaining markers, on the chord between consecutive remaining markers and "
               "order-preserving once congruent (every well-formed map keeping two markers per chromosome); two regression witnesses about "
-              "the former code (old_interp_gmap copied stale group metadata; old_rd_interp_pos kept the old spline), both defects repaired. "
+              "the former code (old_interp_gmap copied stale group metadata; old_rd_interp_pos kept the old spline), both defects repaired; "
+              "after ANY selection of markers (select/remove/prune) keeping two per chromosome the map is well-formed and interpolation is exact "
+              "at the remaining markers and on their chords; interpolation is covariant under scaling of the genetic positions and invariant "
+              "under a common translation of physical positions and query; sequential distances of a window of a query are those of the sliced "
+              "query. The kernel expressions and call shapes on which these theorems turn (bodies of mapfn/invmapfn, 0.01 factor, default sort keys, "
+              "group metadata, congruence comparison, spline mask/knots/assume_sorted, KeyError -> NaN, operand order of the sequential "
+              "difference, |gi-gj| and the inf mask, row/column slice bounds, call shapes of gdist1p/gdist2p/rprob*/interp_xoprob) are regenerated "
+              "from the source of both map classes on every run (Gen/C11_Kernel.v), proved equal to the model (Proofs/C11_Kernel.v) and the laws "
+              "are restated about the generated definitions. "
               "The model is tied to the code by evaluating it inside Coq on generated maps/queries "
               "against the implementation's outputs: exact rationals on dyadic grids, bit-for-bit binary64 (PrimFloat model of "
               "scipy's interp1d arithmetic) everywhere, and Coq-Interval enclosures (proved sound) within 2^-45 for map-function values")
@@ -33,7 +41,10 @@ LEVEL_NOTE = ("trusted: Coq kernel + vm_compute, PrimFloat primitives, classical
               "scipy.interpolate.interp1d._call_linear is modelled (searchsorted-left, clip(1,n-1), barycentric form) and compared bit for bit, "
               "its internal mergesort of already sorted knots is taken as the identity; numpy exp/log/tanh/arctanh compared within 2^-45 "
               "of the real function; gdist1g is modelled on chromosome-sorted input (its documented precondition); "
-              "theorems are about the Gallina model, the tie to the code is differential on generated inputs")
+              "theorems are about the Gallina model; the tie to the code is (a) the kernel translator harness/translate/c11_kernel.py (trusted, "
+              "fail closed: expressions located by function and selector, statement shapes checked structurally) and (b) differential on "
+              "generated inputs; text round trips (csv/egmap) are compared within a few ulp (pandas' float parser), prune() only as a "
+              "selection of markers (which markers it keeps is not specified by the property)")
 TECHNIQUE = "Coq proof (reals + exact rationals) over an executable model; in-Coq vm_compute correspondence (exact, PrimFloat bit-exact, Interval enclosures)"
 RULE = ("case kinds: mapfn (a vector of distances incl. 0, denormals, grid points, large values, +inf and a vector of probabilities incl. 0 and "
         "values next to 1/2, for one map function), gmap (class Standard|Extended, units M|cM, 1-4 chromosomes with 2-6 markers each, "
@@ -42,10 +53,17 @@ RULE = ("case kinds: mapfn (a vector of distances incl. 0, denormals, grid point
         "methods, genotype matrix unphased|phased with Haldane|Kosambi; every map is also built from a second shuffle and with auto_group=False), "
         "igmap (interp_gmap result re-used as a map: dump before and after its first use, congruence, interpolation), rmdisc (non-congruent "
         "grid map reduced by remove_discrepancies and, separately, by remove(flagged indices); queried at removed markers, at and between "
-        "remaining markers, outside and on an absent chromosome, right after the reduction and after build_spline); non-trivial = "
+        "remaining markers, outside and on an absent chromosome, right after the reduction and after build_spline), select (grid map reduced by "
+        "select(index array | mask), remove(index array | slice) or ExtendedGeneticMap.prune(nt | M | both); an earlier deep copy must not follow), "
+        "wide (130-300 markers per chromosome, labels beyond int8/int16, a discordant marker and a removal beyond index 255), audit (introspection "
+        "of the anchored modules against the ENTRY_POINTS / SKIPPED tables); every gmap case also obtains its map through the library's own "
+        "routes (DataFrame / csv / egmap round trips with default and custom columns, property setters, ungroup+group, reorder, sort, select-all, "
+        "remove-none on copies) and probes aliasing (in-place writes into results, into copies' arrays and spline dictionaries and into the map "
+        "returned by interp_gmap must not reach the map); grid maps carry genetic scales 2^-40..2^10 and physical offsets up to 2^40; non-trivial = "
         "gmap with >= 2 chromosomes, a query marker strictly between two knots, one outside the knot range and one on an absent "
         "chromosome, or mapfn with >= 6 finite distances; distinct by SHA-256 of the case")
-TRUSTED = ["scipy interp1d(kind='linear', fill_value='extrapolate') evaluates _call_linear as modelled (compared bit for bit on every case)",
+TRUSTED = ["harness/translate/c11_kernel.py + translate/pyexpr.py + kernelkit.py (kernel translator, fail closed)",
+           "scipy interp1d(kind='linear', fill_value='extrapolate') evaluates _call_linear as modelled (compared bit for bit on every case)",
            "numpy.lexsort is a stable lexicographic sort; numpy.unique on a sorted array yields the runs",
            "numpy exp/log/tanh/arctanh are within 2^-45 (absolute, resp. relative to 1+|d|) of the real functions on the generated points",
            "Python's own float arithmetic (IEEE-754 binary64) is used by the independent predicate as oracle"]
@@ -68,18 +86,189 @@ def fxl(a): return [fx(v) for v in numpy.asarray(a, dtype=float).ravel()]
 def fxll(a): return [[fx(v) for v in r] for r in numpy.asarray(a, dtype=float)]
 def il(a): return None if a is None else [int(v) for v in a]
 
+# ----------------------------------------------------------------------------------------------- entry-point audit
+ANCHORED = ["pybrops.popgen.gmap.StandardGeneticMap", "pybrops.popgen.gmap.ExtendedGeneticMap", "pybrops.popgen.gmap.HaldaneMapFunction",
+            "pybrops.popgen.gmap.KosambiMapFunction", "pybrops.popgen.gmap.DenseGeneticMappableMatrix", "pybrops.popgen.gmap.util"]
+# every public class / function / method / property defined in the anchored modules, with its parameter names, as classified when
+# this module was written: the `audit` case re-enumerates them by introspection on every run; a name or parameter that is not in
+# this table (or one that disappeared) is reported as a violation until it is classified here (covered by a driver, or SKIPPED)
+ENTRY_POINTS = {'DenseGeneticMappableMatrix.__init__': 'self mat vrnt_chrgrp vrnt_phypos vrnt_name vrnt_genpos vrnt_xoprob vrnt_hapgrp vrnt_hapalt vrnt_hapref vrnt_mask kwargs',
+ 'DenseGeneticMappableMatrix.interp_genpos': 'self gmap kwargs',
+ 'DenseGeneticMappableMatrix.interp_xoprob': 'self gmap gmapfn kwargs',
+ 'ExtendedGeneticMap.__copy__': 'self',
+ 'ExtendedGeneticMap.__deepcopy__': 'self memo',
+ 'ExtendedGeneticMap.__init__': 'self vrnt_chrgrp vrnt_phypos vrnt_stop vrnt_genpos vrnt_name vrnt_fncode spline spline_kind spline_fill_value vrnt_genpos_units auto_group auto_build_spline kwargs',
+ 'ExtendedGeneticMap.__len__': 'self',
+ 'ExtendedGeneticMap.build_spline': 'self kind fill_value kwargs',
+ 'ExtendedGeneticMap.congruence': 'self',
+ 'ExtendedGeneticMap.copy': 'self',
+ 'ExtendedGeneticMap.deepcopy': 'self memo',
+ 'ExtendedGeneticMap.from_csv': 'cls filename sep header vrnt_chrgrp_col vrnt_phypos_col vrnt_stop_col vrnt_genpos_col vrnt_name_col vrnt_fncode_col spline spline_kind spline_fill_value '
+                                'vrnt_genpos_units auto_group auto_build_spline kwargs',
+ 'ExtendedGeneticMap.from_egmap': 'cls filename spline spline_kind spline_fill_value auto_group auto_build_spline',
+ 'ExtendedGeneticMap.from_pandas': 'cls df vrnt_chrgrp_col vrnt_phypos_col vrnt_stop_col vrnt_genpos_col vrnt_name_col vrnt_fncode_col spline spline_kind spline_fill_value vrnt_genpos_units '
+                                   'auto_group auto_build_spline kwargs',
+ 'ExtendedGeneticMap.gdist1g': 'self vrnt_chrgrp vrnt_genpos ast asp',
+ 'ExtendedGeneticMap.gdist1p': 'self vrnt_chrgrp vrnt_phypos ast asp',
+ 'ExtendedGeneticMap.gdist2g': 'self vrnt_chrgrp vrnt_genpos rst rsp cst csp',
+ 'ExtendedGeneticMap.gdist2p': 'self vrnt_chrgrp vrnt_phypos rst rsp cst csp',
+ 'ExtendedGeneticMap.group': 'self kwargs',
+ 'ExtendedGeneticMap.has_spline': 'self',
+ 'ExtendedGeneticMap.interp_genpos': 'self vrnt_chrgrp vrnt_phypos',
+ 'ExtendedGeneticMap.interp_gmap': 'self vrnt_chrgrp vrnt_phypos vrnt_stop vrnt_name vrnt_fncode kwargs',
+ 'ExtendedGeneticMap.is_congruent': 'self',
+ 'ExtendedGeneticMap.is_grouped': 'self',
+ 'ExtendedGeneticMap.lexsort': 'self keys kwargs',
+ 'ExtendedGeneticMap.nvrnt': 'property',
+ 'ExtendedGeneticMap.prune': 'self nt M',
+ 'ExtendedGeneticMap.remove': 'self indices kwargs',
+ 'ExtendedGeneticMap.remove_discrepancies': 'self',
+ 'ExtendedGeneticMap.reorder': 'self indices',
+ 'ExtendedGeneticMap.select': 'self indices kwargs',
+ 'ExtendedGeneticMap.sort': 'self keys',
+ 'ExtendedGeneticMap.spline': 'property',
+ 'ExtendedGeneticMap.spline_fill_value': 'property',
+ 'ExtendedGeneticMap.spline_kind': 'property',
+ 'ExtendedGeneticMap.to_csv': 'self filename vrnt_chrgrp_col vrnt_phypos_col vrnt_stop_col vrnt_genpos_col vrnt_name_col vrnt_fncode_col vrnt_genpos_units sep header index kwargs',
+ 'ExtendedGeneticMap.to_egmap': 'self filename',
+ 'ExtendedGeneticMap.to_pandas': 'self vrnt_chrgrp_col vrnt_phypos_col vrnt_stop_col vrnt_genpos_col vrnt_name_col vrnt_fncode_col vrnt_genpos_units kwargs',
+ 'ExtendedGeneticMap.ungroup': 'self kwargs',
+ 'ExtendedGeneticMap.vrnt_chrgrp': 'property',
+ 'ExtendedGeneticMap.vrnt_chrgrp_len': 'property',
+ 'ExtendedGeneticMap.vrnt_chrgrp_name': 'property',
+ 'ExtendedGeneticMap.vrnt_chrgrp_spix': 'property',
+ 'ExtendedGeneticMap.vrnt_chrgrp_stix': 'property',
+ 'ExtendedGeneticMap.vrnt_fncode': 'property',
+ 'ExtendedGeneticMap.vrnt_genpos': 'property',
+ 'ExtendedGeneticMap.vrnt_name': 'property',
+ 'ExtendedGeneticMap.vrnt_phypos': 'property',
+ 'ExtendedGeneticMap.vrnt_stop': 'property',
+ 'HaldaneMapFunction.__init__': 'self kwargs',
+ 'HaldaneMapFunction.invmapfn': 'self r',
+ 'HaldaneMapFunction.mapfn': 'self d',
+ 'HaldaneMapFunction.rprob1g': 'self gmap vrnt_chrgrp vrnt_genpos',
+ 'HaldaneMapFunction.rprob1p': 'self gmap vrnt_chrgrp vrnt_phypos',
+ 'HaldaneMapFunction.rprob2g': 'self gmap vrnt_chrgrp vrnt_genpos',
+ 'HaldaneMapFunction.rprob2p': 'self gmap vrnt_chrgrp vrnt_phypos',
+ 'KosambiMapFunction.__init__': 'self kwargs',
+ 'KosambiMapFunction.invmapfn': 'self r',
+ 'KosambiMapFunction.mapfn': 'self d',
+ 'KosambiMapFunction.rprob1g': 'self gmap vrnt_chrgrp vrnt_genpos',
+ 'KosambiMapFunction.rprob1p': 'self gmap vrnt_chrgrp vrnt_phypos',
+ 'KosambiMapFunction.rprob2g': 'self gmap vrnt_chrgrp vrnt_genpos',
+ 'KosambiMapFunction.rprob2p': 'self gmap vrnt_chrgrp vrnt_phypos',
+ 'StandardGeneticMap.__copy__': 'self',
+ 'StandardGeneticMap.__deepcopy__': 'self memo',
+ 'StandardGeneticMap.__init__': 'self vrnt_chrgrp vrnt_phypos vrnt_genpos spline spline_kind spline_fill_value vrnt_genpos_units auto_group auto_build_spline kwargs',
+ 'StandardGeneticMap.__len__': 'self',
+ 'StandardGeneticMap.build_spline': 'self kind fill_value kwargs',
+ 'StandardGeneticMap.congruence': 'self',
+ 'StandardGeneticMap.copy': 'self',
+ 'StandardGeneticMap.deepcopy': 'self memo',
+ 'StandardGeneticMap.from_csv': 'cls filename vrnt_chrgrp_col vrnt_phypos_col vrnt_genpos_col spline spline_kind spline_fill_value vrnt_genpos_units auto_group auto_build_spline sep header kwargs',
+ 'StandardGeneticMap.from_pandas': 'cls df vrnt_chrgrp_col vrnt_phypos_col vrnt_genpos_col spline spline_kind spline_fill_value vrnt_genpos_units auto_group auto_build_spline kwargs',
+ 'StandardGeneticMap.gdist1g': 'self vrnt_chrgrp vrnt_genpos ast asp',
+ 'StandardGeneticMap.gdist1p': 'self vrnt_chrgrp vrnt_phypos ast asp',
+ 'StandardGeneticMap.gdist2g': 'self vrnt_chrgrp vrnt_genpos rst rsp cst csp',
+ 'StandardGeneticMap.gdist2p': 'self vrnt_chrgrp vrnt_phypos rst rsp cst csp',
+ 'StandardGeneticMap.group': 'self kwargs',
+ 'StandardGeneticMap.has_spline': 'self',
+ 'StandardGeneticMap.interp_genpos': 'self vrnt_chrgrp vrnt_phypos',
+ 'StandardGeneticMap.interp_gmap': 'self vrnt_chrgrp vrnt_phypos kwargs',
+ 'StandardGeneticMap.is_congruent': 'self',
+ 'StandardGeneticMap.is_grouped': 'self',
+ 'StandardGeneticMap.lexsort': 'self keys kwargs',
+ 'StandardGeneticMap.nvrnt': 'property',
+ 'StandardGeneticMap.remove': 'self indices kwargs',
+ 'StandardGeneticMap.remove_discrepancies': 'self',
+ 'StandardGeneticMap.reorder': 'self indices',
+ 'StandardGeneticMap.select': 'self indices kwargs',
+ 'StandardGeneticMap.sort': 'self keys',
+ 'StandardGeneticMap.spline': 'property',
+ 'StandardGeneticMap.spline_fill_value': 'property',
+ 'StandardGeneticMap.spline_kind': 'property',
+ 'StandardGeneticMap.to_csv': 'self filename vrnt_chrgrp_col vrnt_phypos_col vrnt_genpos_col vrnt_genpos_units sep header index kwargs',
+ 'StandardGeneticMap.to_pandas': 'self vrnt_chrgrp_col vrnt_phypos_col vrnt_genpos_col vrnt_genpos_units kwargs',
+ 'StandardGeneticMap.ungroup': 'self kwargs',
+ 'StandardGeneticMap.vrnt_chrgrp': 'property',
+ 'StandardGeneticMap.vrnt_chrgrp_len': 'property',
+ 'StandardGeneticMap.vrnt_chrgrp_name': 'property',
+ 'StandardGeneticMap.vrnt_chrgrp_spix': 'property',
+ 'StandardGeneticMap.vrnt_chrgrp_stix': 'property',
+ 'StandardGeneticMap.vrnt_genpos': 'property',
+ 'StandardGeneticMap.vrnt_phypos': 'property',
+ 'cM2d': 'cM',
+ 'check_is_DenseGeneticMappableMatrix': 'v vname',
+ 'check_is_ExtendedGeneticMap': 'v vname',
+ 'check_is_HaldaneMapFunction': 'v vname',
+ 'check_is_KosambiMapFunction': 'v vname',
+ 'check_is_StandardGeneticMap': 'v vname'}
+SKIPPED = {
+    "check_is_StandardGeneticMap": "type guard (raises TypeError); no clause of the property is about it",
+    "check_is_ExtendedGeneticMap": "type guard", "check_is_HaldaneMapFunction": "type guard", "check_is_KosambiMapFunction": "type guard",
+    "check_is_DenseGeneticMappableMatrix": "type guard",
+    "HaldaneMapFunction.__init__": "no state", "KosambiMapFunction.__init__": "no state",
+    "DenseGeneticMappableMatrix.__init__": "not constructible (typo `vrnt_mask = vrnt_mask **kwargs`); its two methods are driven through "
+                                           "DenseGenotypeMatrix and DensePhasedGenotypeMatrix, which inherit them",
+}
+# parameters that are accepted but only driven with their default value, and why
+PARAMS_FIXED = {
+    "spline": "a pre-built spline dictionary is overwritten by auto_build_spline=True; copies hand their own one through (covered by the copy routes)",
+    "spline_kind": "only 'linear' is in the property (interpolation between flanking markers is linear); other kinds are scipy's",
+    "spline_fill_value": "only 'extrapolate' is modelled", "kind": "see spline_kind", "fill_value": "see spline_fill_value",
+    "auto_build_spline": "False only inside the library's own copy routes", "kwargs": "ignored by the library", "memo": "deepcopy protocol",
+    "sep": "pandas", "header": "pandas", "index": "pandas",
+}
+
+def _enumerate_entry_points():
+    import inspect, importlib
+    found = {}
+    for mn in ANCHORED:
+        m = importlib.import_module(mn)
+        for name, obj in sorted(vars(m).items()):
+            if name.startswith("_") or getattr(obj, "__module__", None) != mn: continue
+            if inspect.isclass(obj):
+                for an, a in sorted(vars(obj).items()):
+                    q = "%s.%s" % (name, an)
+                    if isinstance(a, property): found[q] = "property"
+                    elif isinstance(a, (classmethod, staticmethod)): found[q] = " ".join(inspect.signature(a.__func__).parameters)
+                    elif inspect.isfunction(a): found[q] = " ".join(inspect.signature(a).parameters)
+            elif inspect.isfunction(obj): found[name] = " ".join(inspect.signature(obj).parameters)
+    return found
+
+def _run_audit(case):
+    found = _enumerate_entry_points()
+    return {"new": sorted(k for k in found if k not in ENTRY_POINTS), "gone": sorted(k for k in ENTRY_POINTS if k not in found),
+            "changed": sorted("%s(%s) was (%s)" % (k, found[k], ENTRY_POINTS[k]) for k in found if k in ENTRY_POINTS and found[k] != ENTRY_POINTS[k]),
+            "skipped_unknown": sorted(k for k in SKIPPED if k not in ENTRY_POINTS), "count": len(found)}
+
+def _pred_audit(case, out):
+    bad = []
+    for k in out["new"]: bad.append("entry point %s of the anchored modules is not classified (cover it in a driver or list it in SKIPPED)" % k)
+    for k in out["gone"]: bad.append("entry point %s no longer exists: the drivers / ENTRY_POINTS table are out of date" % k)
+    for k in out["changed"]: bad.append("signature changed: %s" % k)
+    for k in out["skipped_unknown"]: bad.append("SKIPPED lists %s which is not an entry point" % k)
+    return bad
+
 # ----------------------------------------------------------------------------------------------- generators
 def _gen_map(rng, grid):
     nchr = rng.choice([1, 2, 2, 3, 3, 4])
-    labels = rng.sample(range(-2, 12), nchr)
+    # chromosome labels: small ones, and (one case in three) labels that do not fit int8 / int16 / int32
+    labels = rng.sample(list(range(-2, 12)) + ([200, 40000, 2 ** 33 + 7] if rng.random() < 0.34 else []), nchr)
     congruent = rng.random() < 0.7
+    # scales (grid maps stay exact: dyadic positions, power-of-two knot gaps): genetic positions from 2^-40 to 2^+10 times the
+    # unit grid (large ones only on congruent maps: a large negative gap overflows exp(); not beyond 2^10 because the verified
+    # interval evaluation of exp(-2d) costs time linear in d), physical positions offset up to 2^40 (the interpolation weights
+    # are differences of physical positions)
+    gscale = Fraction(2) ** rng.choice([0, 0, 0, 0, -8, -20, -40] + ([4, 10] if congruent else []))
+    poff = rng.choice([0, 0, 0, 2 ** 20, 2 ** 31, 2 ** 40])
     rows = []
     for c in labels:
         k = rng.choice([2, 2, 3, 4, 5, 6])
         if grid:
-            pos = [rng.randrange(0, 64)]
+            pos = [rng.randrange(0, 64) + poff]
             while len(pos) < k: pos.append(pos[-1] + 2 ** rng.randrange(0, 7))
-            gens = [Fraction(rng.randrange(-64, 4096), 256) for _ in range(k)]
+            gens = [Fraction(rng.randrange(-64, 4096), 256) * gscale for _ in range(k)]
         else:
             scale = rng.choice([50, 1000, 10 ** 6, 10 ** 9])
             pos = sorted(rng.sample(range(1, scale + 20), k))
@@ -90,7 +279,7 @@ def _gen_map(rng, grid):
         for x, g in zip(pos, gens):
             rows.append([c, x, float(g)])
     rng.shuffle(rows)
-    return rows, labels, congruent
+    return rows, labels, congruent and (gscale <= 1 or not grid)
 
 def _gen_query(rng, rows, labels, nq, far=True):
     steps = [1, 2, 4, 16, 37] if far else [1, 2, 4]      # steep non-congruent chords far outside overflow exp()
@@ -182,8 +371,79 @@ def _rmdisc_case(rng, cls=None):
     return {"kind": "rmdisc", "cls": c["cls"], "units": "M", "grid": True, "rows": c["rows"], "query": q,
             "stop": c.get("stop"), "name": c.get("name"), "fncode": c.get("fncode")}
 
+def _select_case(rng, cls=None, op=None):
+    """a grid map reduced by select(index array | boolean mask), remove(index array | slice) or ExtendedGeneticMap.prune(nt, M);
+    at least two markers stay on every chromosome"""
+    c = _gmap_case(rng, grid=True, cls=cls)
+    cls = c["cls"]
+    rows = sorted([(r[0], r[1], xf(r[2])) for r in c["rows"]])
+    n = len(rows)
+    op = op or rng.choice(["select_idx", "select_mask", "remove_idx", "remove_slice"] + (["prune", "prune"] if cls == "ext" else []))
+    case = {"kind": "select", "cls": cls, "units": "M", "grid": True, "rows": c["rows"], "stop": c.get("stop"), "name": c.get("name"),
+            "fncode": c.get("fncode"), "op": op}
+    if op == "prune":
+        cong = all(rows[i - 1][0] != rows[i][0] or rows[i - 1][2] <= rows[i][2] for i in range(1, n))
+        span = {}
+        for ch, _, g in rows: span.setdefault(ch, []).append(g)
+        usable_M = cong and all(v[-1] > v[0] for v in span.values())
+        mode = rng.choice(["nt", "nt", "M", "both"]) if usable_M else "nt"
+        case["nt"] = rng.choice([1, 2, 3, 8, 20, 64]) if mode in ("nt", "both") else None
+        case["M"] = fx(min(v[-1] - v[0] for v in span.values()) / rng.choice([1, 2, 4])) if mode in ("M", "both") else None
+    else:
+        # sorted index set of the markers that stay: the two ends of every chromosome plus a random subset of the others
+        keep = []
+        for i in range(n):
+            first = i == 0 or rows[i - 1][0] != rows[i][0]; last = i == n - 1 or rows[i + 1][0] != rows[i][0]
+            if op == "remove_slice": continue
+            if first or last or rng.random() < 0.5: keep.append(i)
+        if op == "remove_slice":
+            # remove an interior stretch of one chromosome with >= 3 markers, if there is one
+            cand = [(i, j) for i in range(n) for j in range(i + 1, n + 1) if all(0 < k < n - 1 and rows[k - 1][0] == rows[k][0] == rows[k + 1][0] for k in range(i, j))]
+            a, b = rng.choice(cand) if cand else (0, 0)
+            case["slice"] = [a, b]
+        else:
+            case["keep"] = keep
+    cnt = {}
+    for ch, _, _ in rows: cnt[ch] = cnt.get(ch, 0) + 1
+    absent = [x for x in range(-3, 14) if x not in cnt]
+    q = []
+    for i in range(n - 1):
+        if rows[i][0] == rows[i + 1][0]: q.append([rows[i][0], rows[i][1]]); q.append([rows[i][0], (rows[i][1] + rows[i + 1][1]) // 2])
+    rng.shuffle(q)
+    case["query"] = q[:8] + [[rows[0][0], rows[0][1] - 3], [rows[-1][0], rows[-1][1] + 5], [rng.choice(absent), 7]]
+    return case
+
+def _wide_case(rng, cls=None):
+    """more markers on a chromosome and more chromosomes than a narrow integer type can count (> 127, > 255 markers; labels beyond
+    int8 / int16), so that group metadata, run boundaries, indices and labels kept in a narrow type would wrap"""
+    cls = cls or rng.choice(["std", "ext"])
+    labels = [rng.choice([40000, 70000, 2 ** 33 + 1])] + rng.sample([-3, 5, 130, 250, 300], rng.choice([0, 1, 1]))
+    sizes = [rng.choice([260, 300])] if len(labels) == 1 else [130, rng.choice([129, 140])]     # elaboration time of the shard grows faster than n
+    rows = []
+    for c, k in zip(labels, sizes):
+        pos = [rng.randrange(0, 64)]
+        while len(pos) < k: pos.append(pos[-1] + 2 ** rng.randrange(0, 4))
+        g = Fraction(rng.randrange(0, 64), 256); gens = []
+        for _ in range(k):
+            gens.append(g); g += Fraction(rng.choice([0, 1, 1, 2, 5]), 256)
+        if rng.random() < 0.4:                       # one discordant marker far into the chromosome
+            i = rng.randrange(k - 20, k - 1); gens[i] = gens[i - 3] - Fraction(1, 512)
+        rows += [[c, x, fx(float(v))] for x, v in zip(pos, gens)]
+    rng.shuffle(rows)
+    n = len(rows)
+    srt = sorted(rows, key=lambda r: (r[0], r[1]))
+    q = []
+    for i in (0, 126, 127, 128, 254, 255, 256, n - 2):
+        if i + 1 < n and srt[i][0] == srt[i + 1][0]: q.append([srt[i][0], (srt[i][1] + srt[i + 1][1] + 1) // 2])
+    q.append([srt[-1][0], srt[-1][1] + 3]); q.append([7, 5])
+    case = {"kind": "wide", "cls": cls, "units": "M", "grid": True, "rows": rows, "query": q, "win": [max(0, n - 6), None, 250, 259],
+            "drop": rng.randrange(n - 30, n - 2)}
+    if cls == "ext":
+        case["stop"] = [r[1] + 1 for r in rows]; case["name"] = None; case["fncode"] = None
+    return case
+
 def gen_cases(rng, tier):
-    cases = []
+    cases = [{"kind": "audit"}]
     nm, ng, ni = (30, 170, 6) if tier == "quick" else (400, 3000, 40)
     # fixed corner cases first
     cases.append({"kind": "mapfn", "fn": "haldane", "d": [fx(v) for v in (0.0, 5e-324, 0.1, 0.5, 1.0, 19.0, 1000.0, math.inf)],
@@ -197,6 +457,10 @@ def gen_cases(rng, tier):
     for _ in range(ng): cases.append(_gmap_case(rng))
     for i in range(ni): cases.append(_igmap_case(rng, ("std", "ext")[i % 2]))          # both classes, alternating
     for i in range(ni): cases.append(_rmdisc_case(rng, ("std", "ext")[i % 2]))
+    for i, op in enumerate(["select_idx", "select_mask", "remove_idx", "remove_slice"] * 2 + ["prune"] * (4 if tier == "quick" else 40)):
+        cases.append(_select_case(rng, "ext" if op == "prune" else ("std", "ext")[(i // 4) % 2], op))
+    for i in range(ni): cases.append(_select_case(rng))
+    for i in range(2 if tier == "quick" else 12): cases.append(_wide_case(rng, ("std", "ext")[i % 2]))
     return cases
 
 # ----------------------------------------------------------------------------------------------- implementation driver
@@ -231,9 +495,12 @@ def _dump(g, cls):
 def _sub(l, idx): return None if l is None else [l[i] for i in idx]
 
 def run_impl(case):
+    if case["kind"] == "audit": return _run_audit(case)
     if case["kind"] == "mapfn": return _run_mapfn(case)
     if case["kind"] == "igmap": return _run_igmap(case)
     if case["kind"] == "rmdisc": return _run_rmdisc(case)
+    if case["kind"] == "select": return _run_select(case)
+    if case["kind"] == "wide": return _run_wide(case)
     return _run_gmap(case)
 
 def _fnobj(name):
@@ -277,9 +544,12 @@ def _run_gmap(case):
         warnings.simplefilter("ignore")
         # the same rows with auto_group=False: arrays stay as supplied, the spline is built from unsorted arrays
         g3, _ = _mk_map(cls, rows, case["units"], case.get("stop"), case.get("name"), case.get("fncode"), auto_group=False)
+        ng_arrays = (g3.vrnt_chrgrp, g3.vrnt_phypos, g3.vrnt_genpos); ng_keep = tuple(a.copy() for a in ng_arrays)
         out["ng_before"] = _dump(g3, cls)
         out["ng_q_gen"] = fxl(g3.interp_genpos(qc, qp))
         out["ng_after"] = _dump(g3, cls)
+        # grouping as a side effect of the first use re-assigns the arrays; the arrays the constructor was given are not written to
+        ng_unch = all(numpy.array_equal(a, b) for a, b in zip(ng_arrays, ng_keep))
         if cls == "std": m = g.interp_gmap(qc, qp)
         else: m = g.interp_gmap(qc, qp, qp + 1, vrnt_name=numpy.array(["m%d" % i for i in range(len(qc))], dtype=object))
         out["igmap"] = _dump(m, cls)
@@ -313,7 +583,113 @@ def _run_gmap(case):
         out["gm"] = {"chr": il(gm.vrnt_chrgrp), "phy": il(gm.vrnt_phypos), "genpos": fxl(gm.vrnt_genpos), "xoprob": fxl(gm.vrnt_xoprob)}
         gm2 = copy.deepcopy(gm); gm2.vrnt_genpos = None; gm2.interp_genpos(g2)
         out["gm_genpos_only"] = fxl(gm2.vrnt_genpos)
+        out["ng_inputs_unchanged"] = ng_unch
+        out["routes"] = _routes(g, cls, case, qc, qp)
+        out["alias"] = _alias_probe(g, cls, qc, qp)
     return out
+
+def _routes(g, cls, case, qc, qp):
+    """the same map obtained through the library's own routes (tabular round trips, property setters, structural operations on
+    copies): each must store and interpolate exactly like the directly constructed map `g`"""
+    import tempfile, shutil, os
+    from pybrops.popgen.gmap.StandardGeneticMap import StandardGeneticMap
+    from pybrops.popgen.gmap.ExtendedGeneticMap import ExtendedGeneticMap
+    K = StandardGeneticMap if cls == "std" else ExtendedGeneticMap
+    res = {}
+    def rec(name, m, full=True):
+        q = fxl(m.interp_genpos(qc, qp))          # first use: a map that is not grouped yet groups (sorts) itself
+        d = _dump(m, cls)
+        if not full:                              # a format that cannot carry marker names / function codes
+            d["name"] = _dump(g, cls)["name"]; d["fncode"] = _dump(g, cls)["fncode"]
+        res[name] = {"dump": d, "q_gen": q}
+    has_name = cls == "ext" and g.vrnt_name is not None
+    has_fn = cls == "ext" and g.vrnt_fncode is not None
+    # 1. DataFrame round trip, default column names, Morgans both ways
+    kw = {}
+    if has_name: kw["vrnt_name_col"] = "name"
+    if has_fn: kw["vrnt_fncode_col"] = "fncode"
+    df = g.to_pandas(vrnt_genpos_units="M")
+    rec("pandas", K.from_pandas(df, vrnt_genpos_units="M", **kw))
+    # 2. DataFrame round trip, rows reversed, custom column names written, integer column indices read, auto_group=False
+    if cls == "std":
+        df2 = g.to_pandas(vrnt_chrgrp_col="c", vrnt_phypos_col="p", vrnt_genpos_col="g", vrnt_genpos_units="Morgans").iloc[::-1].reset_index(drop=True)
+        m = K.from_pandas(df2, vrnt_chrgrp_col=0, vrnt_phypos_col=1, vrnt_genpos_col=2, vrnt_genpos_units="Morgans", auto_group=False)
+    else:
+        df2 = g.to_pandas(vrnt_chrgrp_col="c", vrnt_phypos_col="p", vrnt_stop_col="s", vrnt_genpos_col="g", vrnt_name_col="n", vrnt_fncode_col="f",
+                          vrnt_genpos_units="Morgans").iloc[::-1].reset_index(drop=True)
+        kw2 = {}
+        if has_name: kw2["vrnt_name_col"] = 4
+        if has_fn: kw2["vrnt_fncode_col"] = 5
+        m = K.from_pandas(df2, vrnt_chrgrp_col=0, vrnt_phypos_col=1, vrnt_stop_col=2, vrnt_genpos_col=3, vrnt_genpos_units="Morgans", auto_group=False, **kw2)
+    rec("pandas_ix_nogroup", m)
+    # 3. centiMorgan round trip: written as 100*x, read as 0.01*(100*x) (compared within tolerance by the predicate)
+    dfc = g.to_pandas()
+    mc = K.from_pandas(dfc, vrnt_genpos_units="cM", **kw)
+    res["pandas_cM"] = {"gen": fxl(mc.vrnt_genpos), "col": fxl(dfc["cM"].to_numpy(dtype=float)), "chr": il(mc.vrnt_chrgrp), "phy": il(mc.vrnt_phypos)}
+    # 4. files
+    tmp = tempfile.mkdtemp(prefix="c11_")
+    try:
+        fn = os.path.join(tmp, "map.csv")
+        g.to_csv(fn, vrnt_genpos_units="M")
+        rec("csv", K.from_csv(fn, vrnt_genpos_units="M", **kw))
+        if cls == "ext":
+            fn2 = os.path.join(tmp, "map.egmap")
+            g.to_egmap(fn2)
+            rec("egmap", K.from_egmap(fn2), full=False)
+    finally:
+        shutil.rmtree(tmp, ignore_errors=True)
+    # 5. property setters: an object built from other markers receives the arrays of this map (reversed), then group + build_spline
+    n = len(g)
+    rv = numpy.arange(n)[::-1]
+    dummy = (numpy.arange(n, dtype="int64") % 2, numpy.arange(n, dtype="int64") * 3 + 1, numpy.linspace(0.0, 1.0, n))
+    if cls == "std":
+        m = K(dummy[0], dummy[1], dummy[2])
+    else:
+        m = K(dummy[0], dummy[1], dummy[1] + 1, dummy[2])
+    m.vrnt_chrgrp = g.vrnt_chrgrp[rv]; m.vrnt_phypos = g.vrnt_phypos[rv]; m.vrnt_genpos = (g.vrnt_genpos[rv] * 2.0, "M")
+    m.vrnt_genpos = g.vrnt_genpos[rv]                     # plain array form of the setter
+    if cls == "ext":
+        m.vrnt_stop = g.vrnt_stop[rv]
+        m.vrnt_name = None if g.vrnt_name is None else g.vrnt_name[rv]
+        m.vrnt_fncode = None if g.vrnt_fncode is None else g.vrnt_fncode[rv]
+    m.group(); m.build_spline()
+    rec("setters", m)
+    # 6. structural operations on copies
+    c = copy.deepcopy(g); c.ungroup()
+    res["ungroup"] = {"grouped": bool(c.is_grouped()), "meta_none": all(v is None for v in (c.vrnt_chrgrp_name, c.vrnt_chrgrp_stix, c.vrnt_chrgrp_spix, c.vrnt_chrgrp_len))}
+    c.group(); rec("ungroup_group", c)
+    c = copy.copy(g); c.reorder(rv)
+    res["reorder_state"] = {"grouped": bool(c.is_grouped()), "chr": il(c.vrnt_chrgrp), "phy": il(c.vrnt_phypos)}
+    rec("reorder", c)                                     # interp_genpos groups (sorts) the map again
+    c = g.deepcopy(); c.sort(); rec("sort", c)
+    c = g.copy(); c.select(numpy.arange(n)); rec("select_all", c)
+    c = g.copy(); c.remove(numpy.array([], dtype=int)); rec("remove_none", c)
+    c = g.copy(); c.select(numpy.ones(n, dtype=bool)); rec("select_mask_all", c)
+    res["lexsort"] = {"default": il(g.lexsort()), "phy_only": il(g.lexsort((g.vrnt_phypos,))), "phy_array": il(g.lexsort(g.vrnt_phypos)),
+                      "has_spline": bool(g.has_spline()), "kind": str(g.spline_kind), "fill": str(g.spline_fill_value)}
+    return res
+
+def _alias_probe(g, cls, qc, qp):
+    """mutate in place everything the map handed out (results, arrays of copies) and look at the map again"""
+    ch, ge = g.vrnt_chrgrp, g.vrnt_genpos
+    keep = (qc.copy(), qp.copy(), ch.copy(), ge.copy())
+    r = g.interp_genpos(qc, qp); r[...] = 777.0
+    d1 = g.gdist1g(ch, ge); d1[...] = -5.0
+    d2 = g.gdist2g(ch, ge); d2[...] = -5.0
+    p1 = g.gdist2p(qc, qp); p1[...] = -5.0
+    cg = g.congruence(); cg[...] = False
+    for c in (copy.copy(g), copy.deepcopy(g), g.copy(), g.deepcopy()):
+        c.vrnt_genpos[...] = -1.0; c.vrnt_phypos[...] = 0; c.vrnt_chrgrp[...] = 99
+        for a in (c.vrnt_chrgrp_name, c.vrnt_chrgrp_stix, c.vrnt_chrgrp_spix, c.vrnt_chrgrp_len):
+            if a is not None: a[...] = 0
+        if cls == "ext": c.vrnt_stop[...] = 0
+        c.spline.clear()                                  # a copy owns its spline dictionary
+        c.build_spline()
+    m = g.interp_gmap(qc.copy(), qp.copy()) if cls == "std" else g.interp_gmap(qc.copy(), qp.copy(), qp + 1)
+    m.vrnt_genpos[...] = 3.0
+    for k in list(m.spline.keys()): del m.spline[k]                       # the new map owns a deep copy of the spline
+    return {"dump": _dump(g, cls), "q_gen": fxl(g.interp_genpos(qc, qp)), "g1": fxl(g.gdist1g(ch, ge)), "congruence": [bool(b) for b in g.congruence()],
+            "args_unchanged": bool(numpy.array_equal(qc, keep[0]) and numpy.array_equal(qp, keep[1]) and numpy.array_equal(ch, keep[2]) and numpy.array_equal(ge, keep[3]))}
 
 def _run_igmap(case):
     """the map returned by interp_gmap is used as a genetic map itself"""
@@ -378,6 +754,53 @@ def _run_rmdisc(case):
                             "direct": fxl(g.interp_genpos(qc, qp))}
     return out
 
+def _run_wide(case):
+    cls = case["cls"]
+    g, unch = _mk_map(cls, case["rows"], case["units"], case.get("stop"))
+    qc = numpy.array([q[0] for q in case["query"]], dtype="int64"); qp = numpy.array([q[1] for q in case["query"]], dtype="int64")
+    out = {"map": _dump(g, cls), "inputs_unchanged": unch}
+    w = case["win"]
+    with warnings.catch_warnings(record=True) as ws:
+        warnings.simplefilter("always")
+        out["congruence"] = [bool(b) for b in g.congruence()]; out["is_congruent"] = bool(g.is_congruent())
+        out["q_gen"] = fxl(g.interp_genpos(qc, qp))
+        out["warned"] = any("congruent" in str(x.message) for x in ws)
+    with warnings.catch_warnings():
+        warnings.simplefilter("ignore")
+        out["own"] = fxl(g.interp_genpos(g.vrnt_chrgrp, g.vrnt_phypos))
+        out["g1"] = fxl(g.gdist1g(g.vrnt_chrgrp, g.vrnt_genpos))
+        out["g2w"] = fxll(g.gdist2g(g.vrnt_chrgrp, g.vrnt_genpos, *w))
+        c = copy.deepcopy(g); c.remove(case["drop"])
+        out["dropped"] = {"map": _dump(c, cls), "q_gen": fxl(c.interp_genpos(qc, qp))}
+    return out
+
+def _run_select(case):
+    cls = case["cls"]; op = case["op"]
+    g, _ = _mk_map(cls, case["rows"], case["units"], case.get("stop"), case.get("name"), case.get("fncode"))
+    qc = numpy.array([q[0] for q in case["query"]], dtype="int64"); qp = numpy.array([q[1] for q in case["query"]], dtype="int64")
+    n = len(g)
+    before = list(zip(il(g.vrnt_chrgrp), il(g.vrnt_phypos)))
+    twin = copy.deepcopy(g)                                   # an untouched deep copy: must not follow the reduction
+    if op == "select_idx": g.select(numpy.array(case["keep"], dtype=int))
+    elif op == "select_mask":
+        mk = numpy.zeros(n, dtype=bool); mk[case["keep"]] = True; g.select(mk)
+    elif op == "remove_idx": g.remove(numpy.array([i for i in range(n) if i not in case["keep"]], dtype=int))
+    elif op == "remove_slice": g.remove(slice(case["slice"][0], case["slice"][1]))
+    else: g.prune(nt=case["nt"], M=None if case["M"] is None else xf(case["M"]))
+    out = {"map": _dump(g, cls)}
+    kept = set(zip(out["map"]["chr"], out["map"]["phy"]))
+    out["mask"] = [t in kept for t in before]
+    with warnings.catch_warnings():
+        warnings.simplefilter("ignore")
+        out["is_congruent"] = bool(g.is_congruent())
+        out["direct"] = fxl(g.interp_genpos(qc, qp))
+        out["own"] = fxl(g.interp_genpos(g.vrnt_chrgrp, g.vrnt_phypos))
+        out["spline_keys"] = sorted(int(k) for k in g.spline.keys())
+        g.build_spline()
+        out["rebuilt"] = fxl(g.interp_genpos(qc, qp))
+        out["twin"] = {"n": len(twin), "own": fxl(twin.interp_genpos(twin.vrnt_chrgrp, twin.vrnt_phypos)), "gen": fxl(twin.vrnt_genpos)}
+    return out
+
 # ----------------------------------------------------------------------------------------------- Coq emission
 def _ext(s):
     if s == "nan": return "NaN"
@@ -414,6 +837,7 @@ def _dump_term(d, case):
 
 def emit_case(case, out):
     if "exc" in out: return "false"
+    if case["kind"] == "audit": return E.b(not _pred_audit(case, out))
     if '"-inf"' in __import__("json").dumps(out): return None          # exp() overflow on absurd negative gaps: predicate only
     if case["kind"] == "igmap":
         if isinstance(out["re"], dict) or isinstance(out["re_congruent"], dict): return "false"
@@ -431,6 +855,24 @@ def emit_case(case, out):
         return "(%s\n   && %s\n   && extl_close %s (rd_interp_genpos (gm_rows (to_rows false %s)) %s) && %s)" % (
             one(out), one(out["via_remove"]), E.lst(out["ungrouped"]["direct"], _ext), _raw(case), _pairs(case["query"]),
             E.b(not out["ungrouped"]["grouped"]))
+    if case["kind"] == "select":
+        t1, _f = _dump_term(out["map"], case)
+        return "(check_select false %s %s %s %s %s %s\n   && extl_close %s %s)" % (
+            _raw(case, sorted(range(len(case["rows"])), key=lambda i: (case["rows"][i][0], case["rows"][i][1]))), E.lst(out["mask"], E.b),
+            _pairs(case["query"]), t1, E.b(out["is_congruent"]), E.lst(out["direct"], _ext), E.lst(out["rebuilt"], _ext), E.lst(out["direct"], _ext))
+    if case["kind"] == "wide":
+        # big literals are slow to elaborate: every float array is shipped once (binary64) and converted inside Coq
+        d = out["map"]; w = case["win"]; n = len(case["rows"])
+        pay = [[d["stop"][i], -1, -1] for i in range(n)] if case["cls"] == "ext" else [[] for _ in range(n)]
+        meta = "(%s, %s, %s, %s)" % tuple(E.lst(mm if mm is not None else [], E.z) for mm in d["meta"])
+        return ("(let raw : raw_t := %s in\n   let gf : list float := %s in\n   let g1f : list float := %s in\n   let g2f : list (list float) := %s in\n   let qf : list float := %s in"
+                "\n   check_build false raw (%s, %s, map q_of_float gf, %s, %s) gf\n   && check_congr false raw %s %s %s"
+                "\n   && check_interp true false raw %s (map q_of_float qf) qf gf"
+                "\n   && check_gdist_g true false raw None None %s %s %s %s (map q_of_float g1f) g1f (map (map q_of_float) g2f) g2f && %s)") % (
+            _raw(case), E.lst(d["gen"], _fl), E.lst(out["g1"], _fl), E.lst2(out["g2w"], _fl), E.lst(out["q_gen"], _fl),
+            E.lst(d["chr"], E.z), E.lst(d["phy"], E.z), E.lst2(pay, E.z), meta,
+            E.lst(out["congruence"], E.b), E.b(out["is_congruent"]), E.b(out["warned"]), _pairs(case["query"]),
+            _oz(w[0]), _oz(w[1]), _oz(w[2]), _oz(w[3]), E.b(out["inputs_unchanged"] and out["own"] == d["gen"]))
     if case["kind"] == "mapfn":
         k = _kind(case["fn"])
         return "(check_mapfn %s %s %s %s %s %s %s\n   && fl_eqb (map cM2d_f %s) %s && extll_eqb [%s] %s)" % (
@@ -496,7 +938,20 @@ def emit_case(case, out):
     dd = (out["g1"] + flat(out["g2"])[:8] + out["p1"] + flat(out["p2"])[:8])
     pp = (rp["r1g"] + flat(rp["r2g"])[:8] + rp["r1p"] + flat(rp["r2p"])[:8])
     parts.append("check_rprob %s %s %s" % (_kind(case["fn"]), E.lst(dd, _ext), E.lst(pp, _ext)))
-    parts.append(E.b(out["inputs_unchanged"]))
+    parts.append(E.b(out["inputs_unchanged"] and out["ng_inputs_unchanged"] and out["alias"]["args_unchanged"]))
+    # every lifecycle route / the map after the aliasing probe: only what differs from the directly constructed map is shipped
+    # (and then disagrees with the model, which knows one map per set of rows)
+    seen_d, seen_q = [out["map"], out["ng_after"]], [out["q_gen"], out["q_gen2"], out["ng_q_gen"]]
+    for name, r in sorted(out["routes"].items()) + [("alias", out["alias"])]:
+        if "dump" not in r or name in TEXT_ROUTES: continue
+        if r["dump"] not in seen_d:
+            seen_d.append(r["dump"]); tr, fr = _dump_term(r["dump"], case)
+            parts.append("check_build %s raw %s %s" % (cm, tr, fr))
+        if r["q_gen"] not in seen_q:
+            seen_q.append(r["q_gen"])
+            parts.append("check_interp %s %s raw q %s %s own_f" % (exact, cm, E.lst(r["q_gen"], _ext), E.lst(r["q_gen"], _fl)))
+    rt = out["routes"]
+    parts.append(E.b(rt["ungroup"] == {"grouped": False, "meta_none": True} and not rt["reorder_state"]["grouped"]))
     head = "".join("let %s : %s := %s in\n   " % b for b in binds)
     return "(" + head + "\n   && ".join(parts) + ")"
 
@@ -689,6 +1144,38 @@ def _pred_gmap(case, out):
         else:
             want = _mapfn_py(case["fn"], gp[i] - gp[i - 1])
             if not _close(xo[i], want, 2.0 ** -44): bad.append("vrnt_xoprob[%d] = %r != %s(gap %r) = %r" % (i, xo[i], case["fn"], gp[i] - gp[i - 1], want))
+    # lifecycle: the same map through the library's own routes; aliasing
+    rt = out["routes"]
+    for name in ROUTES:
+        if name not in rt:
+            if name != "egmap" or cls == "ext": bad.append("harness: route %s was not run" % name)
+            continue
+        rd, rq = rt[name]["dump"], rt[name]["q_gen"]
+        if name in TEXT_ROUTES:
+            # pandas' default text-to-float conversion is not correctly rounded: positions within a few ulp, everything else exact
+            near = lambda a, b: len(a) == len(b) and all(_close(xf(x), xf(y), 2.0 ** -48) for x, y in zip(a, b))
+            if {k: v for k, v in rd.items() if k != "gen"} != {k: v for k, v in out["map"].items() if k != "gen"} or not near(rd["gen"], out["map"]["gen"]):
+                bad.append("route %s: the map read back stores other rows / group metadata than the map written" % name)
+            if not near(rq, out["q_gen"]): bad.append("route %s: the map read back interpolates differently from the map written" % name)
+            continue
+        if rd != out["map"]: bad.append("route %s: the map stores other rows / group metadata than the directly constructed map" % name)
+        if rq != out["q_gen"]: bad.append("route %s: the map interpolates differently from the directly constructed map" % name)
+    pc = rt["pandas_cM"]
+    if pc["chr"] != m["chr"] or pc["phy"] != m["phy"] or [xf(v) for v in pc["col"]] != [100.0 * v for v in ge] \
+            or [xf(v) for v in pc["gen"]] != [0.01 * (100.0 * v) for v in ge]:
+        bad.append("centiMorgan round trip: to_pandas() does not write 100 * position or from_pandas(units cM) does not store 0.01 * column")
+    if rt["ungroup"] != {"grouped": False, "meta_none": True}: bad.append("ungroup(): the map still claims to be grouped / keeps group metadata")
+    if rt["reorder_state"] != {"grouped": False, "chr": m["chr"][::-1], "phy": m["phy"][::-1]}: bad.append("reorder(): arrays not reordered as asked or stale group metadata kept")
+    ls = rt["lexsort"]
+    by_phy = sorted(range(n), key=lambda i: m["phy"][i])
+    if ls["default"] != list(range(n)) or ls["phy_only"] != by_phy or ls["phy_array"] != by_phy:
+        bad.append("lexsort(): default keys on a sorted map are not the identity, or custom keys are not honoured")
+    if not ls["has_spline"] or ls["kind"] != "linear" or ls["fill"] != "extrapolate": bad.append("has_spline()/spline_kind/spline_fill_value after construction")
+    al = out["alias"]
+    if al["dump"] != out["map"] or al["q_gen"] != out["q_gen"] or al["g1"] != out["g1"] or al["congruence"] != out["congruence"]:
+        bad.append("aliasing: writing into results / into the arrays of copies / into the map returned by interp_gmap changed the map")
+    if not al["args_unchanged"]: bad.append("aliasing: a query method wrote into its argument arrays")
+    if not out["ng_inputs_unchanged"]: bad.append("auto_group=False: grouping on first use wrote into the arrays the constructor was given")
     # recombination probabilities = map function of the corresponding distances
     rp = out["rp"]
     flat = lambda m: [v for r in m for v in r]
@@ -700,6 +1187,9 @@ def _pred_gmap(case, out):
             want = 0.5 if dv == math.inf else _mapfn_py(case["fn"], dv)
             if not _close(pv, want, 2.0 ** -44): bad.append("%s: %r for distance %r, %s gives %r" % (name, pv, dv, case["fn"], want)); break
     return bad
+
+TEXT_ROUTES = ("csv", "egmap")
+ROUTES = ("pandas", "pandas_ix_nogroup", "csv", "egmap", "setters", "ungroup_group", "reorder", "sort", "select_all", "remove_none", "select_mask_all")
 
 def _own_meta(d):
     """does the grouping metadata of a dumped map describe its own (sorted) chromosome array?"""
@@ -782,11 +1272,93 @@ def _pred_rmdisc(case, out):
     if out["via_remove"] != {k: v for k, v in out.items() if k not in ("via_remove", "ungrouped")}: bad.append("remove(flagged markers) and remove_discrepancies() leave different maps / splines")
     return bad
 
+def _rows_congruent(d):
+    g = [xf(v) for v in d["gen"]]
+    return all(d["chr"][i - 1] != d["chr"][i] or g[i - 1] <= g[i] for i in range(1, len(g)))
+
+def _pred_wide(case, out):
+    bad = []
+    rows = sorted((c, x, xf(g)) for c, x, g in case["rows"])
+    n = len(rows); m = out["map"]
+    if list(zip(m["chr"], m["phy"], [xf(v) for v in m["gen"]])) != rows: bad.append("constructor: stored rows are not the input rows sorted by (chromosome, physical, genetic)")
+    if not m["grouped"] or not _own_meta(m) or m["nvrnt"] != n or m["len"] != n: bad.append("constructor: group metadata / length does not describe the %d sorted rows" % n)
+    if not out["inputs_unchanged"]: bad.append("constructor mutated its input arrays")
+    cg = [True if i == 0 or rows[i - 1][0] != rows[i][0] else rows[i - 1][2] <= rows[i][2] for i in range(n)]
+    if out["congruence"] != cg or out["is_congruent"] != all(cg) or out["warned"] != (not all(cg)): bad.append("congruence() flags / is_congruent() / warning")
+    knots = {}
+    for c, x, g in rows: knots.setdefault(c, []).append((x, Fraction(g)))
+    def chk(label, kn, vals):
+        for (c, x), v in zip(case["query"], vals):
+            v = xf(v)
+            if c not in kn:
+                if not math.isnan(v): bad.append("%s: chromosome %d is absent from the map but the position is %r" % (label, c, v))
+            elif math.isnan(v) or Fraction(v) != _interp_exact(kn[c], x):
+                bad.append("%s: position of (%d,%d) = %r, linear interpolation between the flanking markers gives %r" % (label, c, x, v, float(_interp_exact(kn[c], x)))); break
+    chk("interp_genpos", knots, out["q_gen"])
+    if [xf(v) for v in out["own"]] != [t[2] for t in rows]: bad.append("interpolation at the map's own markers does not return their stored positions")
+    g1 = [xf(v) for v in out["g1"]]
+    if g1 != [math.inf if i == 0 or rows[i - 1][0] != rows[i][0] else rows[i][2] - rows[i - 1][2] for i in range(n)]: bad.append("gdist1g != first differences inside chromosomes, inf at chromosome starts")
+    w = case["win"]
+    want = [[(abs(a[2] - b[2]) if a[0] == b[0] else math.inf) for b in rows[slice(w[2], w[3])]] for a in rows[slice(w[0], w[1])]]
+    if [[xf(v) for v in r] for r in out["g2w"]] != want: bad.append("gdist2g window %r" % (w,))
+    d = out["dropped"]["map"]; rest = rows[:case["drop"]] + rows[case["drop"] + 1:]
+    if list(zip(d["chr"], d["phy"], [xf(v) for v in d["gen"]])) != rest or not _own_meta(d): bad.append("remove(%d): the reduced map is not the map without that marker" % case["drop"])
+    kn2 = {}
+    for c, x, g in rest: kn2.setdefault(c, []).append((x, Fraction(g)))
+    chk("interp_genpos after remove(%d)" % case["drop"], kn2, out["dropped"]["q_gen"])
+    return bad
+
+def _pred_select(case, out):
+    """select / remove / prune keep a subset of the markers: what is kept is what was asked for, the reduced map is sorted and
+    grouped with metadata of its own, interpolation follows the remaining markers at once (no stale spline), is exact at them,
+    and an earlier deep copy is untouched"""
+    bad = []
+    rows = sorted((c, x, xf(g)) + (tuple(_pay(case, i)),) for i, (c, x, g) in enumerate(case["rows"]))
+    n = len(rows); op = case["op"]
+    m = out["map"]
+    got = list(zip(m["chr"], m["phy"], [xf(v) for v in m["gen"]]))
+    if op in ("select_idx", "select_mask", "remove_idx"): want_ix = list(case["keep"])
+    elif op == "remove_slice": want_ix = [i for i in range(n) if not (case["slice"][0] <= i < case["slice"][1])]
+    else:
+        want_ix = None
+        if sum(out["mask"]) != len(got): bad.append("prune: the reduced map holds markers that the map did not have")
+        for i in range(n):
+            end = i == 0 or rows[i - 1][0] != rows[i][0] or i == n - 1 or rows[i + 1][0] != rows[i][0]
+            if end and not out["mask"][i]: bad.append("prune: the first / last marker of a chromosome was dropped"); break
+    if want_ix is not None and out["mask"] != [i in want_ix for i in range(n)]: bad.append("%s: the markers kept are not the ones asked for" % op)
+    want = [rows[i] for i in range(n) if out["mask"][i]]
+    if got != [t[:3] for t in want]: bad.append("%s: the reduced map is not the kept markers sorted by (chromosome, physical, genetic)" % op)
+    if case["cls"] == "ext":
+        pay = [(m["stop"][i], m["name"][i] if m["name"] is not None else -1, m["fncode"][i] if m["fncode"] is not None else -1) for i in range(len(m["chr"]))]
+        if pay != [t[3] for t in want]: bad.append("%s: stop/name/fncode did not travel with their markers" % op)
+    if not m["grouped"] or not _own_meta(m) or m["nvrnt"] != len(got) or m["len"] != len(got): bad.append("%s: group metadata / length does not describe the reduced map" % op)
+    knots = {}
+    for c, x, g in got: knots.setdefault(c, []).append((x, Fraction(g)))
+    if out["spline_keys"] != sorted(knots): bad.append("%s: the spline does not cover exactly the chromosomes of the reduced map" % op)
+    cong = all(got[i - 1][0] != got[i][0] or got[i - 1][2] <= got[i][2] for i in range(1, len(got)))
+    if out["is_congruent"] != cong: bad.append("%s: is_congruent() of the reduced map" % op)
+    if len(out["own"]) != len(got) or not all(_close(xf(a), g, 2.0 ** -44) for a, (_, _, g) in zip(out["own"], got)):
+        bad.append("%s: interpolation at the remaining markers does not return their stored positions" % op)
+    for what, vals in (("right after the reduction", out["direct"]), ("after build_spline()", out["rebuilt"])):
+        for (c, x), v in zip(case["query"], vals):
+            v = xf(v)
+            if c not in knots:
+                if not math.isnan(v): bad.append("%s %s: chromosome %d is absent but the position is %r" % (op, what, c, v))
+                continue
+            if len(knots[c]) < 2: continue
+            w = _interp_exact(knots[c], x)
+            if math.isnan(v) or abs(Fraction(v) - w) > Fraction(1, 2 ** 36) * (1 + abs(w)):
+                bad.append("%s %s: position of (%d,%d) = %r, the flanking markers of the reduced map give %r" % (op, what, c, x, v, float(w))); break
+    tw = out["twin"]
+    if tw["n"] != n or [xf(v) for v in tw["gen"]] != [t[2] for t in rows] or not all(_close(xf(a), t[2], 2.0 ** -44) for a, t in zip(tw["own"], rows)):
+        bad.append("%s: a deep copy taken before the reduction changed with it" % op)
+    return bad
+
 def pred(case, out):
     """the property, stated directly on the implementation's outputs (independent of the Coq model)"""
     if "exc" in out:
         return ["implementation raised %s: %s" % (out["exc"], out["msg"])]
-    bad = {"mapfn": _pred_mapfn, "gmap": _pred_gmap, "igmap": _pred_igmap, "rmdisc": _pred_rmdisc}[case["kind"]](case, out)
+    bad = {"mapfn": _pred_mapfn, "gmap": _pred_gmap, "igmap": _pred_igmap, "rmdisc": _pred_rmdisc, "select": _pred_select, "audit": _pred_audit, "wide": _pred_wide}[case["kind"]](case, out)
     seen = []
     for b in bad:
         if b not in seen: seen.append(b)
@@ -794,6 +1366,7 @@ def pred(case, out):
 
 def nontrivial(case, out):
     if case["kind"] == "mapfn": return sum(1 for v in case["d"] if v not in ("inf",)) >= 6
+    if case["kind"] == "audit": return False
     if case["kind"] != "gmap": return True
     chrs = set(r[0] for r in case["rows"])
     knots = {}
@@ -805,7 +1378,10 @@ def nontrivial(case, out):
 
 def describe(case, out):
     if case["kind"] == "mapfn": return {"kind": "mapfn", "fn": case["fn"], "npoints": len(case["d"]) + len(case["r"]), "raised": "exc" in out}
+    if case["kind"] == "audit": return {"kind": "audit", "entry_points": out.get("count")}
     if case["kind"] in ("igmap", "rmdisc"): return {"kind": case["kind"], "cls": case["cls"], "raised": "exc" in out}
+    if case["kind"] == "wide": return {"kind": "wide", "cls": case["cls"], "nmarkers": len(case["rows"]), "nchr": len(set(r[0] for r in case["rows"])), "raised": "exc" in out}
+    if case["kind"] == "select": return {"kind": "select", "cls": case["cls"], "op": case["op"], "raised": "exc" in out}
     knots = set(r[0] for r in case["rows"])
     return {"kind": "gmap", "cls": case["cls"], "units": case["units"], "grid": case["grid"], "nchr": len(knots),
             "nmarkers": len(case["rows"]), "nquery": len(case["query"]), "fn": case["fn"], "gmat": case["gmat"],
@@ -841,3 +1417,10 @@ def shrink(case, fails):
         t["s1"] = [None, None]; t["s2"] = [None] * 4
         if fails(t): cur = t
     return cur
+
+
+def translate(repo, gen_dir):
+    """regenerate Gen/C11_Kernel.v (kernel expressions and call shapes of the genetic maps, the map functions and interp_xoprob)
+    from the current source; fail closed"""
+    from translate import c11_kernel
+    return [c11_kernel.translate(repo, gen_dir)]
